@@ -83,4 +83,71 @@ def moduloReduce (p : Params) (Errval : Int) : Int :=
   let e := if Errval < 0 then Errval + p.RANGE else Errval
   if e ≥ (p.RANGE + 1) / 2 then e - p.RANGE else e
 
+/-! ### A.6 update of the context variables (code segments A.12, A.13), A.7.2 run-interruption
+    state (code segments A.21, A.23).  `>>` on a possibly negative value is written as the
+    standard writes it (`-((1 - B) >> 1)` for negative `B`). -/
+
+/-- the four per-context variables of regular mode -/
+structure Ctx where
+  A : Int
+  B : Int
+  C : Int
+  N : Int
+deriving Repr, DecidableEq
+
+def MIN_C : Int := -128
+def MAX_C : Int := 127
+
+/-- code segment A.12: variables update -/
+def updateVariables (p : Params) (q : Ctx) (Errval : Int) : Ctx :=
+  let B := q.B + Errval * (2 * p.NEAR + 1)
+  let A := q.A + (if Errval < 0 then -Errval else Errval)
+  if q.N = p.RESET then
+    { q with A := A / 2, B := (if B ≥ 0 then B / 2 else -((1 - B) / 2)), N := q.N / 2 + 1 }
+  else
+    { q with A := A, B := B, N := q.N + 1 }
+
+/-- code segment A.13: update of bias-related variables `B[Q]` and `C[Q]` -/
+def updateBias (q : Ctx) : Ctx :=
+  if q.B ≤ -q.N then
+    let B := q.B + q.N
+    let C := if q.C > MIN_C then q.C - 1 else q.C
+    let B := if B ≤ -q.N then -q.N + 1 else B
+    { q with B := B, C := C }
+  else if q.B > 0 then
+    let B := q.B - q.N
+    let C := if q.C < MAX_C then q.C + 1 else q.C
+    let B := if B > 0 then 0 else B
+    { q with B := B, C := C }
+  else q
+
+/-- A.6 as a whole -/
+def contextUpdate (p : Params) (q : Ctx) (Errval : Int) : Ctx := updateBias (updateVariables p q Errval)
+
+/-- the per-run-interruption-context variables (A.7.2) -/
+structure RICtx where
+  RItype : Int
+  A : Int
+  N : Int
+  Nn : Int
+deriving Repr, DecidableEq
+
+/-- code segment A.21: computation of `map` -/
+def riMap (q : RICtx) (k Errval : Int) : Bool :=
+  if k = 0 ∧ Errval > 0 ∧ 2 * q.Nn < q.N then true
+  else if Errval < 0 ∧ 2 * q.Nn ≥ q.N then true
+  else if Errval < 0 ∧ k ≠ 0 then true
+  else false
+
+/-- code segment A.22: `EMErrval = 2·|Errval| − RItype − map` -/
+def riEMErrval (q : RICtx) (k Errval : Int) : Int :=
+  2 * (if Errval < 0 then -Errval else Errval) - q.RItype - (if riMap q k Errval then 1 else 0)
+
+/-- code segment A.23: update of the run-interruption variables -/
+def riUpdate (p : Params) (q : RICtx) (Errval EMErrval : Int) : RICtx :=
+  let Nn := if Errval < 0 then q.Nn + 1 else q.Nn
+  let A := q.A + (EMErrval + 1 - q.RItype) / 2
+  if q.N = p.RESET then { q with A := A / 2, N := q.N / 2 + 1, Nn := Nn / 2 }
+  else { q with A := A, N := q.N + 1, Nn := Nn }
+
 end T87
